@@ -87,6 +87,12 @@ def stepB (early : Bool) (b : SB) : EvB → SB
         reportedShard := if okFin then some (shardSum shards) else none,
         shardHanded := if s'.shardUploadsStarted then shardAccepted shards else 0 }
 
+/-- `total_bytes_uploaded = shard_bytes_uploaded + xorb_bytes_uploaded` of the metrics a successful `finalize` returns -/
+def SB.reportedTotal (b : SB) : Option Nat :=
+  match b.reportedXorb, b.reportedShard with
+  | some x, some s => some (s + x)
+  | _, _ => none
+
 def runB (early : Bool) (b : SB) (evs : List EvB) : SB := evs.foldl (stepB early) b
 
 end Xet.UploadBytes
